@@ -282,6 +282,141 @@ func runConc(r *evid.Run, idx int64, st stats, res *concResult) {
 	}
 }
 
+// runConcStatic: several goroutines call Schedule(k) at the same time on a pool that nobody
+// changes. Schedule = reset + schedule(k) is one atomic operation of the queue, and with
+// pairwise distinct priorities its answer is unique: every call must return exactly what the
+// sequential model schedules in a fresh pass, whatever the other callers do.
+func runConcStatic(r *evid.Run, idx int64, st stats, res *concResult) {
+	rng := r.Rand(24, uint64(idx))
+	lst := stats{}
+	rn := newRunnerMQ(concCapacity, fmt.Sprintf("static%d", idx), lst)
+	nSenders := 2 + rng.IntN(3)
+	var ops []Op
+	id := 1
+	for s := 0; s < nSenders; s++ {
+		base := around(rng, zoneCenters[rng.IntN(len(zoneCenters))], -2, 0)
+		if base > maxU64-6 {
+			base = maxU64 - 6
+		}
+		n := 1 + rng.IntN(4)
+		for k := 0; k < n; k++ {
+			seq := base + uint64(k)
+			if k > 0 && rng.IntN(6) == 0 {
+				seq++ // a gap: the rest of the chain is never ready
+				base++
+			}
+			ops = append(ops, Op{Kind: "add", Tx: id, Sender: string(rune('A' + s)), Seq: seq, StateSeq: base - uint64(min(k, 0))})
+			id++
+		}
+	}
+	// pairwise distinct priorities
+	perm := rng.Perm(len(ops))
+	for i := range ops {
+		ops[i].Prio = uint64(perm[i] + 1)
+	}
+	// state sequence: the sender's first sequence number for all its adds
+	first := map[string]uint64{}
+	for _, o := range ops {
+		if _, ok := first[o.Sender]; !ok {
+			first[o.Sender] = o.Seq
+		}
+	}
+	for i := range ops {
+		ops[i].StateSeq = first[ops[i].Sender]
+	}
+	for _, o := range ops {
+		rn.step(o)
+	}
+	if len(rn.findings) > 0 || rn.dead {
+		return // reported by the sequential phases; nothing to add here
+	}
+	// expected answer of a fresh pass for every limit
+	maxK := len(ops) + 1
+	expected := make([][]int, maxK+1)
+	for k := 0; k <= maxK; k++ {
+		rn.m.reset()
+		var ids []int
+		for len(ids) < k {
+			rs := rn.m.mustReady()
+			if len(rs) == 0 {
+				break
+			}
+			best := rs[0]
+			for _, c := range rs {
+				if c.t.prio > best.t.prio {
+					best = c
+				}
+			}
+			rn.m.markScheduled(best.t)
+			ids = append(ids, best.t.id)
+		}
+		expected[k] = ids
+	}
+	rn.m.reset()
+	q := rn.v.(*mqAdapter).q
+	nG := 3 + rng.IntN(5)
+	iters := 150
+	type bad struct {
+		k    int
+		got  []int
+		want []int
+	}
+	bads := make([][]bad, nG)
+	var calls atomic.Int64
+	var wg sync.WaitGroup
+	for g := 0; g < nG; g++ {
+		wg.Add(1)
+		go func(g int) {
+			defer wg.Done()
+			defer func() {
+				if p := recover(); p != nil {
+					bads[g] = append(bads[g], bad{k: -1, got: nil, want: nil})
+				}
+			}()
+			grng := r.Rand(25, uint64(idx), uint64(g))
+			for i := 0; i < iters && len(bads[g]) == 0; i++ {
+				k := grng.IntN(maxK + 1)
+				metas := q.Schedule(k)
+				calls.Add(1)
+				got := make([]int, 0, len(metas))
+				for _, mt := range metas {
+					if t := rn.byHash[mt.Hash()]; t != nil {
+						got = append(got, t.id)
+					} else {
+						got = append(got, -1)
+					}
+				}
+				same := len(got) == len(expected[k])
+				for j := 0; same && j < len(got); j++ {
+					same = got[j] == expected[k][j]
+				}
+				if !same {
+					bads[g] = append(bads[g], bad{k, got, expected[k]})
+				}
+			}
+		}(g)
+	}
+	wg.Wait()
+	st["conc.static_cases"]++
+	st["conc.static_schedule_calls"] += calls.Load()
+	st["conc.static_goroutines"] += int64(nG)
+	for g := range bads {
+		if len(bads[g]) == 0 {
+			continue
+		}
+		b := bads[g][0]
+		sig, what := "c20/conc-static/schedule-differs-from-fresh-pass-of-model", fmt.Sprintf("concurrent Schedule(%d) on an unchanging pool returned %s, a fresh pass must return %s (pool %s; %d goroutines calling Schedule concurrently)", b.k, rn.descr(b.got), rn.descr(b.want), rn.descr(rn.m.ids()), nG)
+		if b.k < 0 {
+			sig, what = "panic/conc-static-schedule", "Schedule panicked under concurrent callers on an unchanging pool"
+		}
+		res.Findings = append(res.Findings, concFinding{sig, fmt.Sprintf("static concurrent case %d: %s", idx, what), Witness{Kind: "conc-static", Case: idx, Seed: r.Seed, Capacity: concCapacity, Ops: ops, OpsText: opsText(ops), MQ: true}})
+		break
+	}
+	if len(ops) >= 3 {
+		res.Nontrivial = append(res.Nontrivial, fmt.Sprintf("conc-static/%d", idx))
+	}
+}
+
 // concChild runs the concurrent cases [lo, hi) and prints the result as one JSON
 // line; every case index is printed before the case starts, so that the parent
 // can attribute a fatal error (unrecoverable: concurrent map access, deadlock) to a case.
@@ -290,6 +425,7 @@ func concChild(r *evid.Run, lo, hi int) {
 	for i := lo; i < hi; i++ {
 		fmt.Printf("CONC-CASE %d\n", i)
 		runConc(r, int64(i), res.Stats, res)
+		runConcStatic(r, int64(i), res.Stats, res)
 		res.Cases++
 	}
 	b, _ := json.Marshal(res)
